@@ -244,6 +244,8 @@ def edits_for(cfg: Dict[str, Any], task: str) -> List[Tuple[str, Any]]:
     out.append(("add_unknown_metric", "iou_bev_thresholds"))
     out.append(("add_unknown_key", "foo"))
     out.append(("add_other_range", None))
+    out.append(("add_other_range_zero", 0.0))
+    out.append(("add_other_range_zero", 0))
     out.append(("add_partial_other_range", None))
     out.append(("set_task", "foo"))
     out.append(("set_task", "sensing" if task != "sensing" else "detection"))
@@ -266,6 +268,12 @@ def apply_edit(cfg: Dict[str, Any], e: Tuple[str, Any]) -> None:
             cfg.update(max_distance=100.0, min_distance=10.0)
         else:
             cfg.update(max_x_position=100.0, max_y_position=100.0, max_distance=100.0, min_distance=10.0)
+    elif kind == "add_other_range_zero":
+        # falsy-but-given bounds (a minimum distance of zero is the most natural ring)
+        if "max_x_position" in cfg:
+            cfg.update(max_distance=100.0, min_distance=arg)
+        else:
+            cfg.update(max_x_position=100.0, max_y_position=100.0, max_distance=100.0, min_distance=arg)
     elif kind == "add_partial_other_range":
         cfg.update(max_distance=100.0)
     elif kind == "set_task":
